@@ -28,7 +28,7 @@ def _worker(args):
     rt.ctx.stats.clear()
     rt.ctx.entered = set()
     t = time.time()
-    res = {"job": job, "violations": [], "witnesses": [], "inconclusive": [], "notes": [], "obligations": 0}
+    res = {"job": job, "violations": _Capped(), "witnesses": [], "inconclusive": [], "notes": [], "obligations": 0}
     try:
         mod.run_job(job, res)
     except (Unmodelled, Inconclusive) as e:
@@ -37,10 +37,24 @@ def _worker(args):
         res["inconclusive"].append(f"harness assertion: {e} @ {_where(e)}")
     except Exception as e:  # noqa: BLE001
         res["inconclusive"].append(f"harness error {type(e).__name__}: {e} @ {_where(e)}")
+    res["violations"] = list(res["violations"])
     res["stats"] = dict(rt.ctx.stats)
     res["functions"] = sorted(rt.ctx.entered)
     res["wall_s"] = round(time.time() - t, 3)
     return res
+
+
+class _Capped(list):
+    """violations of one job: exploration of the job stops after a few counterexamples"""
+
+    CAP = 3
+
+    def append(self, v):
+        from sx.core import StopExploration
+
+        list.append(self, v)
+        if len(self) >= self.CAP:
+            raise StopExploration
 
 
 def _where(e):
